@@ -20,7 +20,8 @@ class OSock:
         self.host, self.proto, self.role = host, proto, role
         self.addr, self.port, self.handle = F.norm_ip(addr), port, handle
         self.peer = None          # udp: connected peer; tcp stream: remote endpoint
-        self.zombie = False       # closed stream: its binding may linger (FIN path), don't care
+        self.zombie = False       # closed stream: its binding may linger (FIN path), don't care ...
+        self.lossy = False        # ... for good if a segment of the connection was lost or a hand-made one was injected
         self.expected = []        # udp: datagrams that must be received next, in order
 
     @property
@@ -222,6 +223,10 @@ def c17_oracle(case, obs):
                 deliver_udp(o["src"], o["dst"], cmd[3])
         elif n == "raw_tcp":
             if o["r"] == "ok":
+                a, b = (F.norm_ip(o["src"][0]), o["src"][1]), (F.norm_ip(o["dst"][0]), o["dst"][1])
+                for s in socks:
+                    if s.role == "conn" and {(s.addr, s.port), s.peer} == {a, b}:
+                        s.lossy = True
                 if cmd[1] == "data":
                     probes[cmd[4]] = ((F.norm_ip(o["src"][0]), o["src"][1]), (F.norm_ip(o["dst"][0]), o["dst"][1]))
                 if cmd[1] == "syn" and not o.get("known"):
@@ -229,6 +234,20 @@ def c17_oracle(case, obs):
                     if h is not None:
                         syn_arrives(h, o["src"], o["dst"])
         elif n in ("egress", "pump"):
+            if n == "egress":
+                for s in socks:
+                    if s.role == "conn":
+                        s.lossy = True          # whatever it had queued is dropped on the wire
+            else:
+                # the pump runs until no host has anything left to send: a connection both of whose
+                # ends were dropped, and none of whose segments was lost or forged, has finished
+                # its FIN exchange (or was reset) and is not a live socket any more
+                for z in [s for s in socks if s.role == "conn" and s.zombie and not s.lossy]:
+                    c = next((x for x in socks if x.role == "conn" and x is not z and (x.addr, x.port) == z.peer
+                              and x.peer == (z.addr, z.port)), None)
+                    if c is not None and c.zombie and not c.lossy:
+                        socks.remove(z)
+                        socks.remove(c)
             # egress_all: every host folds its local packets back first (host order); what left the
             # hosts is delivered afterwards, in the same order
             wire = []
@@ -342,6 +361,7 @@ class Spec(PropSpec):
         cases += [F.gen_net(rng) for _ in range(260 * n)]
         cases += [F.gen_wrap(rng) for _ in range(40 * n)]
         cases += [F.gen_dualstack(rng) for _ in range(40 * n)]
+        cases += [F.gen_passive_close(rng, variant=v) for v in (0, 1, 2) for _ in range(8 * n)]
         cases += F.gen_alloc_exhaustive() + [F.gen_alloc(rng) for _ in range(60 * n)]
         return cases
 
